@@ -1,6 +1,217 @@
+import GrafeoModel.Model.Epoch
 import GrafeoModel.Driver.Proto
-/-! stream `epo` (stub; replaced by its builder) -/
-open Grafeo Grafeo.Proto
+
+/-! Stream `epo`: compressed epoch blocks and the epoch store (`harness/src/epo.rs` documents the
+line formats). Stateless lines: a store history is encoded inside one line. -/
+open Grafeo Grafeo.Proto Grafeo.Epoch
 namespace DriverEpoch
-def handle (_args : List String) : Option Out := none
+
+/-! ### parsing -/
+
+def parseFields (s : String) : Option (List Nat) := (s.splitOn ".").mapM (fun t => t.toNat?)
+
+/-- `key:f1.f2.….f8`, every field within its type. -/
+def parseRec (ws : List Nat) (s : String) : Option KRec :=
+  match s.splitOn ":" with
+  | [k, fs] => do
+    let k ← k.toNat?
+    let fs ← parseFields fs
+    if k < 18446744073709551616 ∧ wfRec ws fs then pure (k, fs) else none
+  | _ => none
+
+def parseRecs (ws : List Nat) (s : String) : Option (List KRec) :=
+  if s == "-" then some [] else (s.splitOn ",").mapM (parseRec ws)
+
+def tailS (s : String) (n : Nat) : String := String.ofList (s.toList.drop n)
+
+def u64? (s : String) : Option Nat := do
+  let v ← s.toNat?
+  if v < 18446744073709551616 then pure v else none
+def u32? (s : String) : Option Nat := do
+  let v ← s.toNat?
+  if v < 4294967296 then pure v else none
+def u16? (s : String) : Option Nat := do
+  let v ← s.toNat?
+  if v < 65536 then pure v else none
+
+/-! ### printing -/
+
+def recS : Option (List Nat) → String
+  | none => "none"
+  | some fs => joinWith "." (fs.map toString)
+
+def entryS (e : Entry) : String := s!"{e.id}@{e.offset}+{e.length}"
+def entriesS (es : List Entry) : String := if es.isEmpty then "-" else joinWith "," (es.map entryS)
+def boolS (b : Bool) : String := if b then "1" else "0"
+
+/-- the records of the input carrying key `id`. -/
+def candidates (xs : List KRec) (id : Nat) : List (List Nat) := (xs.filter (fun x => x.1 == id)).map (·.2)
+
+/-- spec of a by-id answer: the record stored under the id; when the id was supplied several
+times any of its records is acceptable. -/
+def specById (xs : List KRec) (id : Nat) (m : Option (List Nat)) : Option (List Nat) :=
+  match m with
+  | some r => if (candidates xs id).contains r then some r else lookupLast xs id
+  | none => lookupLast xs id
+
+/-- one block query: (model, spec, signature on deviation). -/
+def blockQuery (ns es : List KRec) (b : Block) (ni ei : List Entry) (q : String) :
+    Option (String × String × String) :=
+  let c := q.toList.headD ' '
+  let c2 := (q.toList.drop 1).headD ' '
+  if c == 'n' then do
+    let id ← u64? (tailS q 1)
+    let m := b.getNodeById id
+    pure (recS m, recS (specById ns id m), "epoch-block-by-id")
+  else if c == 'e' then do
+    let id ← u64? (tailS q 1)
+    let m := b.getEdgeById id
+    pure (recS m, recS (specById es id m), "epoch-block-by-id")
+  else if c == 'N' || c == 'E' then
+    match (tailS q 1).splitOn ":" with
+    | [o, l] => do
+      let o ← u32? o
+      let l ← u16? l
+      let m := if c == 'N' then b.getNode o l else b.getEdge o l
+      pure (recS m, recS m, "-")
+    | _ => none
+  else if c == 'i' || c == 'j' then do
+    let k ← (tailS q 1).toNat?
+    let (idx, xs) := if c == 'i' then (ni, ns) else (ei, es)
+    match idx[k]? with
+    | none => pure ("oob", "oob", "-")
+    | some en =>
+      let m := if c == 'i' then b.getNode en.offset en.length else b.getEdge en.offset en.length
+      pure (s!"{entryS en}={recS m}", s!"{entryS en}={recS (specById xs en.id m)}", "epoch-block-by-offset")
+  else if c == 'm' && (c2 == 'n' || c2 == 'e') then do
+    let id ← u64? (tailS q 2)
+    let (side, xs) := if c2 == 'n' then (b.nodes, ns) else (b.edges, es)
+    let m := mightContain side id
+    -- soundness only: a present id must never be excluded
+    pure (boolS m, boolS (if hasKey xs id then true else m), "epoch-zone-map-excludes-present")
+  else if q == "c" then
+    let z := s!"{b.nodeCount},{b.edgeCount},{b.nodes.count},{b.edges.count}"
+    pure (z, s!"{ns.length},{es.length},{ns.length},{es.length}", "epoch-block-count")
+  else if q == "h" then
+    let z := s!"{b.epoch},{b.compression},{b.nodes.minId},{b.nodes.maxId},{b.edges.minId},{b.edges.maxId},{b.zMinEpoch},{b.zMaxEpoch},{b.nodeDataSize},{b.edgeDataSize},{b.nodeUncompressed},{b.edgeUncompressed},{b.compressedSize}"
+    pure (z, z, "-")
+  else if q == "x" then
+    let z := s!"{entriesS ni}/{entriesS ei}"
+    pure (z, z, "-")
+  else none
+
+def sigOf (parts : List (String × String × String)) : String :=
+  let bad := (parts.filter (fun p => p.1 != p.2.1)).map (·.2.2)
+  let bad := bad.eraseDups
+  if bad.isEmpty then "-" else joinWith "+" bad
+
+/-! ### store programs -/
+
+structure SState where
+  st : Store
+  sp : SpecStore
+
+def specNodes (sp : SpecStore) (e : Nat) : Option (List KRec) := (specFind sp e).map (·.1)
+def specEdges (sp : SpecStore) (e : Nat) : Option (List KRec) := (specFind sp e).map (·.2)
+
+def specSum (f : List KRec × List KRec → Nat) (sp : SpecStore) : Nat :=
+  (sp.map (fun p => f p.2)).foldl (· + ·) 0
+
+def storeOp (s : SState) (q : String) : Option (SState × String × String × String) :=
+  let c := q.toList.headD ' '
+  if c == 'F' then
+    match (tailS q 1).splitOn "|" with
+    | [e, ns, es] => do
+      let e ← u64? e
+      let ns ← parseRecs nodeWs ns
+      let es ← parseRecs edgeWs es
+      let r := s.st.freeze e ns es
+      let z := s!"F:{r.2.1.length}:{r.2.2.length}"
+      pure ({ st := r.1, sp := specFreeze s.sp e ns es }, z, s!"F:{ns.length}:{es.length}", "epoch-block-count")
+    | _ => none
+  else if c == 'G' then do
+    let m ← u64? (tailS q 1)
+    let r := s.st.gc m
+    let r' := specGc s.sp m
+    pure ({ st := r.1, sp := r'.1 }, s!"G:{r.2}", s!"G:{r'.2}", "epoch-store-gc")
+  else if c == 'n' || c == 'e' then
+    match (tailS q 1).splitOn ":" with
+    | [e, id] => do
+      let e ← u64? e
+      let id ← u64? id
+      let m := if c == 'n' then s.st.getNodeById e id else s.st.getEdgeById e id
+      let xs := ((if c == 'n' then specNodes s.sp e else specEdges s.sp e)).getD []
+      pure (s, recS m, recS (specById xs id m), "epoch-store-by-id")
+    | _ => none
+  else if c == 'N' || c == 'E' then
+    match (tailS q 1).splitOn ":" with
+    | [e, o, l] => do
+      let e ← u64? e
+      let o ← u32? o
+      let l ← u16? l
+      let m := if c == 'N' then s.st.getNode e o l else s.st.getEdge e o l
+      pure (s, recS m, recS m, "-")
+    | _ => none
+  else if c == 'c' then do
+    let e ← u64? (tailS q 1)
+    pure (s, boolS (s.st.containsEpoch e), boolS (specFind s.sp e).isSome, "epoch-store-contains")
+  else if c == 'b' then do
+    let e ← u64? (tailS q 1)
+    let m := match s.st.getBlock e with
+      | none => "none"
+      | some b => s!"{b.epoch},{b.nodeCount},{b.edgeCount}"
+    let sp := match specFind s.sp e with
+      | none => "none"
+      | some v => s!"{e},{v.1.length},{v.2.length}"
+    pure (s, m, sp, "epoch-store-block")
+  else if q == "k" then
+    pure (s, toString s.st.epochCount, toString s.sp.length, "epoch-store-count-after-refreeze")
+  else if q == "t" then
+    pure (s, toString s.st.totalSize, toString (sumSizes s.st.blocks), "epoch-store-count-after-refreeze")
+  else if q == "s" then
+    let (a, b, c', d, e) := s.st.stats
+    let z := s!"{a},{b},{c'},{d},{e},{boolS (d == e)}"
+    let sp := s!"{s.sp.length},{specSum (fun v => v.1.length) s.sp},{specSum (fun v => v.2.length) s.sp},{d},{e},{boolS (d == e)}"
+    pure (s, z, sp, "epoch-store-stats")
+  else none
+
+def runStore : SState → List String → List (String × String × String) → Option (List (String × String × String))
+  | _, [], acc => some acc.reverse
+  | s, q :: qs, acc =>
+    match storeOp s q with
+    | none => none
+    | some (s', m, sp, sg) => runStore s' qs ((m, sp, sg) :: acc)
+
+def render (parts : List (String × String × String)) : Out :=
+  let m := joinWith ";" (parts.map (·.1))
+  let s := joinWith ";" (parts.map (·.2.1))
+  { model := m, spec := s, sig := sigOf parts }
+
+def handle (args : List String) : Option Out :=
+  match args with
+  | ["block", e, ns, es, qs] => do
+    let e ← u64? e
+    let ns ← parseRecs nodeWs ns
+    let es ← parseRecs edgeWs es
+    let (b, ni, ei) := fromRecords e ns es
+    let parts ← (qs.splitOn ",").mapM (blockQuery ns es b ni ei)
+    pure (render parts)
+  | ["enc", kind, r] => do
+    -- byte layout of one record: bincode bytes, and decode of the bytes
+    let ws ← if kind == "n" then some nodeWs else if kind == "e" then some edgeWs else none
+    let fs ← parseFields r
+    if wfRec ws fs then
+      let bs := encRec fs
+      let m := s!"{hexBytes bs}|{recS (decRec ws bs)}"
+      pure { model := m, spec := s!"{hexBytes bs}|{recS (some fs)}", sig := if decRec ws bs == some fs then "-" else "epoch-record-codec" }
+    else none
+  | ["dec", kind, hex] => do
+    let ws ← if kind == "n" then some nodeWs else if kind == "e" then some edgeWs else none
+    let bs ← parseHex hex
+    pure { model := recS (decRec ws bs) }
+  | ["store", prog] => do
+    let parts ← runStore ⟨Store.empty, []⟩ (prog.splitOn "/") []
+    pure (render parts)
+  | _ => none
+
 end DriverEpoch
